@@ -132,3 +132,106 @@ package table
 //@   modifies table.numIn.count, table.numInvalid.count
 //@   ensures[in_once]      table.numIn.count == old(table.numIn.count) + 1
 //@   ensures[invalid_once] table.numInvalid.count == old(table.numInvalid.count) + 1
+
+// ---------------------------------------------------------------- runtime changes (C18)
+// Every mutator publishes one complete new table value under the mutex; the value published
+// before (and every slice reachable from it) is never written, so a dispatcher that already
+// loaded it keeps seeing the table exactly as it was.
+//@ pred (t *Table) published() := typeIs(mkiface(t.config.valtag, t.config.valref), TableConfig)
+//@ spec sameScalars(a TableConfig, b TableConfig) := a.SpoolDir == b.SpoolDir && a.BadMetricsMaxAge == b.BadMetricsMaxAge
+//@      && a.Validation_level_legacy.Level == b.Validation_level_legacy.Level && a.Validation_level_m20.Level == b.Validation_level_m20.Level && a.Validate_order == b.Validate_order
+//@
+//@ func (table *Table) AddRoute(route route.Route)
+//@   property C18
+//@   requires table.published() && !table.Mutex.held && route != nil
+//@   let c := table.conf()
+//@   let n := len(table.conf().routes)
+//@   modifies *
+//@   ensures[published]  table.published() && !table.Mutex.held
+//@   ensures[appended]   len(table.conf().routes) == n + 1 && table.conf().routes[n] == route
+//@        && (forall j int :: 0 <= j && j < n ==> table.conf().routes[j] == old(c.routes[j]))
+//@   ensures[others]     table.conf().blacklist == old(c.blacklist) && table.conf().aggregators == old(c.aggregators) && table.conf().rewriters == old(c.rewriters) && sameScalars(table.conf(), c)
+//@   ensures[snapshot_immutable] len(c.routes) == n && (forall j int :: 0 <= j && j < n ==> c.routes[j] == old(c.routes[j]))
+//@
+//@ func (table *Table) AddBlacklist(matcher *matcher.Matcher)
+//@   property C18
+//@   requires table.published() && !table.Mutex.held
+//@   let c := table.conf()
+//@   let n := len(table.conf().blacklist)
+//@   modifies *
+//@   ensures[published]  table.published() && !table.Mutex.held
+//@   ensures[appended]   len(table.conf().blacklist) == n + 1 && table.conf().blacklist[n] == matcher
+//@        && (forall j int :: 0 <= j && j < n ==> table.conf().blacklist[j] == old(c.blacklist[j]))
+//@   ensures[others]     table.conf().routes == old(c.routes) && table.conf().aggregators == old(c.aggregators) && table.conf().rewriters == old(c.rewriters) && sameScalars(table.conf(), c)
+//@   ensures[snapshot_immutable] len(c.blacklist) == n && (forall j int :: 0 <= j && j < n ==> c.blacklist[j] == old(c.blacklist[j]))
+//@
+//@ func (table *Table) AddAggregator(agg *aggregator.Aggregator)
+//@   property C18
+//@   requires table.published() && !table.Mutex.held
+//@   let c := table.conf()
+//@   let n := len(table.conf().aggregators)
+//@   modifies *
+//@   ensures[published]  table.published() && !table.Mutex.held
+//@   ensures[appended]   len(table.conf().aggregators) == n + 1 && table.conf().aggregators[n] == agg
+//@        && (forall j int :: 0 <= j && j < n ==> table.conf().aggregators[j] == old(c.aggregators[j]))
+//@   ensures[others]     table.conf().routes == old(c.routes) && table.conf().blacklist == old(c.blacklist) && table.conf().rewriters == old(c.rewriters) && sameScalars(table.conf(), c)
+//@   ensures[snapshot_immutable] len(c.aggregators) == n && (forall j int :: 0 <= j && j < n ==> c.aggregators[j] == old(c.aggregators[j]))
+//@
+//@ func (table *Table) DelBlacklist(index int) error
+//@   property C18
+//@   requires table.published() && !table.Mutex.held && index >= 0
+//@   let c := table.conf()
+//@   let n := len(table.conf().blacklist)
+//@   modifies *
+//@   ensures[published]   table.published() && !table.Mutex.held
+//@   ensures[beyond_end]  index >= n ==> result != nil && table.config.valref == old(table.config.valref)
+//@   ensures[removed]     index < n ==> result == nil && len(table.conf().blacklist) == n - 1
+//@        && (forall j int :: 0 <= j && j < index ==> table.conf().blacklist[j] == old(c.blacklist[j]))
+//@        && (forall j int :: index <= j && j < n - 1 ==> table.conf().blacklist[j] == old(c.blacklist[j + 1]))
+//@   ensures[others]      table.conf().routes == old(c.routes) && table.conf().aggregators == old(c.aggregators) && table.conf().rewriters == old(c.rewriters) && sameScalars(table.conf(), c)
+//@   ensures[snapshot_immutable] len(c.blacklist) == n && (forall j int :: 0 <= j && j < n ==> c.blacklist[j] == old(c.blacklist[j]))
+//@
+//@ func (table *Table) DelAggregator(id int) error
+//@   property C18
+//@   requires table.published() && !table.Mutex.held && id >= 0
+//@   let c := table.conf()
+//@   let n := len(table.conf().aggregators)
+//@   modifies *
+//@   ensures[published]   table.published() && !table.Mutex.held
+//@   ensures[beyond_end]  id >= n ==> result != nil && table.config.valref == old(table.config.valref)
+//@   ensures[removed]     id < n ==> result == nil && len(table.conf().aggregators) == n - 1
+//@        && (forall j int :: 0 <= j && j < id ==> table.conf().aggregators[j] == old(c.aggregators[j]))
+//@        && (forall j int :: id <= j && j < n - 1 ==> table.conf().aggregators[j] == old(c.aggregators[j + 1]))
+//@   ensures[others]      table.conf().routes == old(c.routes) && table.conf().blacklist == old(c.blacklist) && table.conf().rewriters == old(c.rewriters) && sameScalars(table.conf(), c)
+//@   ensures[snapshot_immutable] len(c.aggregators) == n && (forall j int :: 0 <= j && j < n ==> c.aggregators[j] == old(c.aggregators[j]))
+//@
+//@ func (table *Table) DelRoute(key string) error
+//@   property C18
+//@   requires table.published() && !table.Mutex.held && (forall j int :: 0 <= j && j < len(table.conf().routes) ==> table.conf().routes[j] != nil)
+//@   let c := table.conf()
+//@   let n := len(table.conf().routes)
+//@   let found := exists j int :: 0 <= j && j < n && routeKey(c.routes[j]) == key
+//@   modifies *
+//@   ensures[published]   table.published() && !table.Mutex.held
+//@   ensures[unknown_key] !found ==> result == nil && table.config.valref == old(table.config.valref)
+//@   ensures[removed]     found ==> (exists k int :: 0 <= k && k < n && old(routeKey(c.routes[k])) == key
+//@        && (forall j int :: 0 <= j && j < k ==> old(routeKey(c.routes[j])) != key)
+//@        && len(table.conf().routes) == n - 1
+//@        && (forall j int :: 0 <= j && j < k ==> table.conf().routes[j] == old(c.routes[j]))
+//@        && (forall j int :: k <= j && j < n - 1 ==> table.conf().routes[j] == old(c.routes[j + 1])))
+//@   ensures[others]      table.conf().blacklist == old(c.blacklist) && table.conf().aggregators == old(c.aggregators) && table.conf().rewriters == old(c.rewriters) && sameScalars(table.conf(), c)
+//@   ensures[snapshot_immutable] len(c.routes) == n && (forall j int :: 0 <= j && j < n ==> c.routes[j] == old(c.routes[j]))
+//@   loop 1:
+//@     invariant[idx]   0 <= #i && #i <= len(#s) && #s == c.routes && table.Mutex.held && table.config.valref == old(table.config.valref) && table.config.valtag == old(table.config.valtag)
+//@     invariant[none]  toDelete == -1 && (forall j int :: 0 <= j && j < #i ==> old(routeKey(c.routes[j])) != key)
+//@     invariant[heap]  (forall j int :: 0 <= j && j < n ==> c.routes[j] == old(c.routes[j]) && routeKey(c.routes[j]) == old(routeKey(c.routes[j])))
+//@
+//@ func (table *Table) GetRoute(key string) route.Route
+//@   property C18
+//@   requires table.published() && (forall j int :: 0 <= j && j < len(table.conf().routes) ==> table.conf().routes[j] != nil)
+//@   let c := table.conf()
+//@   ensures[first_match] (result == nil && (forall j int :: 0 <= j && j < len(c.routes) ==> routeKey(c.routes[j]) != key))
+//@        || (exists k int :: 0 <= k && k < len(c.routes) && result == c.routes[k] && routeKey(c.routes[k]) == key && (forall j int :: 0 <= j && j < k ==> routeKey(c.routes[j]) != key))
+//@   loop 1:
+//@     invariant[idx]  0 <= #i && #i <= len(#s) && #s == c.routes
+//@     invariant[none] forall j int :: 0 <= j && j < #i ==> routeKey(c.routes[j]) != key
